@@ -1,3 +1,3 @@
 SPECIFICATION Spec
-INVARIANTS C19_AtMostOne C19_RestoreThenDrop C19_LostAndConverged C19_NoUntrackedRelaxed
+INVARIANTS C19_AtMostOne C19_NeverMoreRelaxed C19_RestoreThenDrop C19_LostAndConverged C19_NoUntrackedRelaxed
 CHECK_DEADLOCK FALSE
